@@ -127,7 +127,8 @@ impl<'a> TypingContext<'a> {
     &self,
     identifier: PStr,
   ) -> Option<&NominalType> {
-    self.available_type_parameters.iter().find(|it| it.name == identifier).unwrap().bound.as_ref()
+    // After a syntax error a generic type may name a type parameter that is not in scope.
+    self.available_type_parameters.iter().find(|it| it.name == identifier)?.bound.as_ref()
   }
 
   pub(crate) fn nominal_type_upper_bound(&'a self, type_: &'a Type) -> Option<&'a NominalType> {
